@@ -6,7 +6,7 @@ cd /verif
 for d in seeded/C*-*; do
   s=$(basename "$d"); p=${s%%-*}
   extra=""
-  case "$s" in C05-a|C06-a|C05-b) extra="C05 C06";; C07-a) extra="C04";; C10-a) extra="C04";; esac
+  case "$s" in C05-a|C06-a|C05-b) extra="C05 C06";; C07-a) extra="C04";; C10-a) extra="C04";; C04-c) extra="C08";; esac
   for c in $p $extra; do
     [ "$c" = "$p" ] || [ -n "$c" ] || continue
     out=$(tools/seed_bg.sh "$s" "$tier" "$c" 2>&1)
